@@ -431,6 +431,11 @@ func c08SemanticBatches(era drive.Era) []c08Batch {
 	// (a batch has exactly one input address, so the replenishing transaction is a self-transfer or a conversion)
 	add("chained-conversion-roundtrip", "chained", kit.Conversion(A, "pUSD", x, "pJPY"), kit.Conversion(A, "pUSD", x/2, "pEUR"))
 	add("wrapping-transfer-sum", "malformed", kit.Tx{From: A, Asset: "pUSD", Amount: 10e8, To: []kit.Out{{Addr: B, Amount: 1<<63 - 1}, {Addr: AddrC, Amount: 1<<63 - 1}, {Addr: B, Amount: 10e8 + 2}}})
+	// the other order: an earlier transaction spends what a later self-transfer would need
+	add("spend-all-then-self-transfer", "chained", kit.Transfer(A, "pUSD", U, B), kit.Transfer(A, "pUSD", U, A))
+	add("spend-most-then-self-transfer", "chained", kit.Transfer(A, "pUSD", x, B), kit.Transfer(A, "pUSD", x, A))
+	add("convert-all-then-self-transfer", "chained", kit.Conversion(A, "pUSD", U, "pEUR"), kit.Transfer(A, "pUSD", U, A))
+	add("self-transfer-then-two-spends", "chained", kit.Transfer(A, "pUSD", x, A), kit.Transfer(A, "pUSD", x, B), kit.Transfer(A, "pUSD", x, AddrC))
 	add("overspend-in-sum", "chained", kit.Transfer(A, "pUSD", x, B), kit.Transfer(A, "pUSD", x, AddrC))
 	add("zero-transfer", "zero-amount", kit.Transfer(A, "pUSD", 0, B))
 	add("zero-conversion", "zero-amount", kit.Conversion(A, "pUSD", 0, "pEUR"))
